@@ -379,15 +379,18 @@ impl World {
                     if k % 2 == 0 {
                         self.next_val = nv;
                         let _ = op.tx.send(Cmd::Commit(Delay(0, false), nv));
+                        trace::tr(format!("s commit {k} 0"));
                     } else {
                         let _ = op.tx.send(Cmd::Drop(Delay(0, false)));
+                        trace::tr(format!("s wdrop {k} 0"));
                     }
                 } else {
                     let _ = op.tx.send(Cmd::Release(Delay(0, false)));
+                    trace::tr(format!("s rel {k} 0"));
                 }
-                trace::tr(format!("s autoclose {k}"));
             }
         }
+        trace::tr("s settle".into());
         settle().await;
         if !self.open_live().is_empty() {
             tokio::time::sleep(Duration::from_secs(3600)).await;
@@ -419,6 +422,11 @@ fn run_script(lines: &[String]) {
                 it.next();
                 continue;
             }
+            if w[0] == "mode" || w[0] == "model" {
+                trace::tr(w.join(" "));
+                it.next();
+                continue;
+            }
             if w[0] == "conns" {
                 conns = w[1].parse().unwrap();
                 trace::tr(format!("s conns {conns}"));
@@ -444,6 +452,7 @@ fn run_script(lines: &[String]) {
 // online generators
 
 struct Gen {
+    mode: &'static str,
     rng: Rng,
     next_op: u32,
     stats: BTreeMap<&'static str, u64>,
@@ -457,6 +466,7 @@ impl Gen {
     /// world set-up: 0-2 connections, 2-4 handles, at least two caches
     async fn setup(&mut self, force_conns: Option<usize>) -> World {
         let conns = force_conns.unwrap_or_else(|| self.rng.below(3) as usize);
+        trace::tr(format!("mode {}", self.mode));
         trace::tr(format!("s conns {conns}"));
         let mut w = World::new(conns).await;
         let nh = self.rng.range(2, 4) as usize;
@@ -585,6 +595,7 @@ impl Gen {
                     w.exec(&format!("read {k} {h} 0")).await;
                     w.exec("settle").await;
                     w.exec(&format!("rel {k} 0")).await;
+                    w.exec("settle").await;
                     self.stat("final_read");
                 }
             }
@@ -688,7 +699,8 @@ fn main() {
                 let r = rng.fork();
                 let gname = g.clone();
                 let res = std::panic::catch_unwind(move || {
-                    let mut gen_ = Gen { rng: r, next_op: 1, stats: BTreeMap::new() };
+                    let mode = if gname == "exact" || gname == "loss" { "exact" } else { "burst" };
+                    let mut gen_ = Gen { mode, rng: r, next_op: 1, stats: BTreeMap::new() };
                     let cell = std::sync::Arc::new(std::sync::Mutex::new(None));
                     let c2 = cell.clone();
                     run_rt(async move {
